@@ -18,18 +18,32 @@ META = {
                    "tables as compiled from the current source."),
     "level_note": ("Outside the theorem: that the hand-written model equals the C++ (tied by a differential run of the real "
                    "code under ASan+UBSan: whole table x sampled masks, all 2^17 masks x a few keys in the thorough tier, all "
-                   "strings to length 4-5 over {a,+,{,},S,h,i,f,t,0,x}, random longer texts and sequences, "
-                   "simulate_key_sequence); memory safety of the C++ (sanitizers only); the translator gen/c19_tables.py "
+                   "strings to length 4-5 over {a,+,{,},S,h,i,f,t,0,x}, directed boundary codes/masks and texts, random longer texts and "
+                   "sequences, simulate_key_sequence; key bindings loaded by the real KeyBinder / Navigator from such texts must act "
+                   "on the key and send the keys that Parse gives, and bind nothing when Parse fails); memory safety of the C++ (sanitizers only); the translator gen/c19_tables.py "
                    "(a compiled dumper that #includes key_table.cc; row counts cross-checked by an independent source scan, "
                    "fails closed); x86-64 signed char for the one-byte shortcut. Masks with unnamed bits and unnamed key "
                    "codes are outside the property (they cannot be written down; counter-examples are proved in the file)."),
     "design_ref": "DESIGN.md §3 C19",
 }
 
-SRC_FILES = ["src/rime/key_event.cc", "src/rime/key_event.h", "src/rime/key_table.cc", "src/rime/key_table.h"]
+SRC_FILES = ["src/rime/key_event.cc", "src/rime/key_event.h", "src/rime/key_table.cc", "src/rime/key_table.h",
+             "src/rime/gear/key_binder.cc", "src/rime/gear/key_binding_processor_impl.h"]
 GEN_OUT = os.path.join(vlib.LEAN, "RimeModel", "Gen", "KeyTables.lean")
 ALPHABET = [b"a", b"+", b"{", b"}", b"S", b"h", b"i", b"f", b"t", b"0", b"x"]
-GENERATOR_VERSION = 1
+GENERATOR_VERSION = 2
+
+
+DIRECTED_TEXTS = [
+    b"Release+a", b"Release+Release+a", b"Shift+Shift+a", b"Shift+Release+Shift+Return", b"Release", b"Shift", b"Shift+", b"+a", b"a+",
+    b"+", b"++", b"Shift++a", b"Shift+plus", b"Control+Shift+Alt+a", b"Alt+a", b"Mod1+a", b"Meta+a", b"Super+Hyper+a", b"Lock+a",
+    b"Button1+a", b"Button5+Mod5+a", b"shift+a", b"SHIFT+a", b"Shift+A", b"Return", b"return", b"RETURN", b"space", b"Space", b"BackSpace",
+    b"Backspace", b"KP_0", b"KP_Enter", b"F1", b"F35", b"F36", b"VoidSymbol", b"Shift+VoidSymbol", b"0x0000", b"0x0061", b"0xffff", b"0x61",
+    b"0xffffff", b"0x1000000", b"Shift+0x0061", b"(unknown)", b"Shift+(unknown)", b"a", b"ab", b"{", b"}", b"{}", b"{{", b"}}", b"{{}", b"{}}", b"a{",
+    b"{a", b"{a}", b"{{a}}", b"{a{b}}", b"{a}{b}", b"{Shift+a}", b"{Release+a}", b"{braceleft}", b"{braceright}", b"braceleft", b"\\{", b"\\}",
+    b"{\\}}", b"\xe4\xb8\xad", b"{\xe4\xb8\xad}", b"Shift+\xe4", b"\xff", b"{\xff}", b"a\0b", b"Shift\0x+a", b"Return\0x", b" ", b"  ", b"{ }",
+    b"Shift+ ", b" Shift+a", b"Shift +a", b"Shift+space", b"Control+Control+Control+Control+space",
+]
 
 
 def hx(b):
@@ -306,6 +320,18 @@ def build_pass1(c, T):
     for _ in range(3000 if quick else 30000):
         k, m = rand_any_event(T, rng)
         ops.append(("repr %d %d" % (k, m), ("evx", k, m)))
+    # directed boundaries of the unnamed-code forms (0x%04x up to 0xffff, 0x%06x up to 0xffffff, "(unknown)" above, negative
+    # ints) x masks on the boundaries of kModifierMask, alone and inside sequences
+    edge_codes = [0, 1, 0x1f, 0x20, 0x7e, 0x7f, 0x80, 0xff, 0x100, 0xfff, 0x1000, 0xfffe, 0xffff, 0x10000, 0x10001, 0xfffff,
+                  0x100000, 0xfffffe, 0xffffff, 0x1000000, 0x1000001, 0x7fffffff, 0x80000000, 0x80000001, 0xffff0000, 0xfffffffe, 0xffffffff]
+    edge_masks = [0, 1, 4, 1 << 30, 1 << 31, T.all_named, T.mask, T.mask ^ 0xffffffff, 0xffffffff, 1 << 13, 1 << 29]
+    for k in edge_codes:
+        ops.append(("name %d" % k, ("lookup",)))
+        for m in edge_masks:
+            ops.append(("repr %d %d" % (k, m), ("evx", k, m)))
+            ops.append(("seqrepr 97:0,%d:%d,%d:0" % (k, m, k), ("seqx", ((97, 0), (k, m), (k, 0)))))
+    for m in edge_masks:
+        ops.append(("modname %d" % m, ("lookup",)))
     # sequences of domain events
     for k in T.keys:
         ops.append(("seqrepr %d:0" % k, ("seq", ((k, 0),))))
@@ -328,6 +354,12 @@ def build_pass1(c, T):
     for b in range(256):
         ops.append(("parse %02x" % b, ("ptxt", bytes([b]))))
         ops.append(("seqparse %02x" % b, ("stxt", bytes([b]))))
+    # directed texts: repeated / misplaced '+', Release, repeated and unknown modifiers, case variants, hex forms, braces
+    for t in DIRECTED_TEXTS:
+        ops.append(("parse " + hx(t), ("ptxt", t)))
+        ops.append(("seqparse " + hx(t), ("stxt", t)))
+        ops.append(("seqparse " + hx(b"{" + t + b"}"), ("stxt", b"{" + t + b"}")))
+        ops.append(("seqparse " + hx(b"a{" + t + b"}{Return}b"), ("stxt", b"a{" + t + b"}{Return}b")))
     # random longer texts
     for _ in range(6000 if quick else 60000):
         t = rand_event_text(T, rng)
@@ -341,6 +373,55 @@ def build_pass1(c, T):
             ops.append(("sim " + hx(t), ("sim", t, len(ops) - 1)))
     return ops, {"exhaustive_masks_keys": special if exhaustive_masks else [], "alphabet_maxlen": maxlen,
                  "special_keys": special}
+
+
+def build_bind_cases(c, T):
+    """texts whose parse results (pass 1, on the implementation) decide what a key binding made from them must do"""
+    quick = c.tier == "quick"
+    rng = c.rng
+    cases = []
+    dk = [b"Control+a", b"Shift+Return", b"a", b"Release+a", b"Contrl+a", b"Control+", b"", b"0x0061", b"Control+Shift+Left", b"space", b"{", b"F4"]
+    dt = [b"Home", b"Shift+End", b"b", b"Nope", b"Shift+Nope", b"Shft+Home", b"", b"Release+b", b"0x0062"]
+    ds = [b"ab", b"a{Shift+Left}b", b"{Home}{End}", b"{Nope}", b"a{", b"{Shift+}", b"", b"{}", b"{Control+a}", b"x{Release+x}"]
+    for a in dk:
+        for t in dt:
+            cases.append(("send", a, t))
+        for t in ds:
+            cases.append(("seq", a, t))
+        cases.append(("nav", a, None))
+    for t in DIRECTED_TEXTS[::2]:
+        cases.append(("nav", t, None))
+        cases.append(("send", t, b"Home"))
+        cases.append(("send", b"Control+a", t))
+        cases.append(("seq", b"Control+a", t))
+    for _ in range(250 if quick else 2500):
+        a = rand_event_text(T, rng)
+        r = rng.random()
+        if r < 0.4:
+            cases.append(("send", a, rand_event_text(T, rng)))
+        elif r < 0.8:
+            cases.append(("seq", a, rand_seq_text(T, rng)))
+        else:
+            cases.append(("nav", a, None))
+    return cases
+
+
+RELEASE_MASK = 1 << 30
+
+
+def expect_binding(kind, pa, pt):
+    """pa / pt: the implementation's own `parse` / `seqparse` answers for the accept and the target text.
+    -> (probe key, what the binding must do when that key is pressed)"""
+    a_ok = pa.startswith("ok ")
+    probe = tuple(int(x) for x in pa.split()[1:3]) if a_ok else (0, 0)
+    if kind == "nav":
+        bound = a_ok and not (probe[1] & RELEASE_MASK)       # the navigator ignores key releases
+        return probe, "caret 0" if bound else "caret 3"
+    t_ok = pt.startswith("ok")
+    if a_ok and t_ok:
+        evs = "%s:%s" % tuple(pt.split()[1:3]) if kind == "send" else pt.split(" ", 1)[1]
+        return probe, "rec " + evs
+    return probe, "rec %d:%d" % probe
 
 
 def kind_of(op):
@@ -514,6 +595,42 @@ def run(c):
     rc2, out2, log2 = impl.run(lines2)
     if rc2 != 0 or len(out2) != len(lines2):
         crashes.append((lines2[len(out2)] if len(out2) < len(lines2) else "<exit>", rc2, log2))
+    # K pass 3: the users of the parser (gear/key_binder.cc LoadBindings, gear/key_binding_processor_impl.h LoadConfig):
+    # a binding written with a text must act on exactly the key KeyEvent::Parse gives for it and send what Parse /
+    # KeySequence::Parse give for the target; a text that does not parse binds nothing
+    bind_cases = build_bind_cases(c, T)
+    pre = []
+    for kind, a, t in bind_cases:
+        pre.append("parse " + hx(a))
+        if kind != "nav":
+            pre.append(("parse " if kind == "send" else "seqparse ") + hx(t))
+    rc3, out3, log3 = impl.run(pre)
+    bind_ops, bind_fail = [], []
+    if rc3 != 0 or len(out3) != len(pre):
+        crashes.append((pre[len(out3)] if len(out3) < len(pre) else "<exit>", rc3, log3))
+    else:
+        it = iter(out3)
+        for kind, a, t in bind_cases:
+            pa = next(it)
+            pt = next(it) if kind != "nav" else None
+            probe, want = expect_binding(kind, pa, pt)
+            # the constructors from text: Parse, or the null event / the empty sequence when Parse fails
+            bind_ops.append(("ctor " + hx(a), ("ctor", a, None, pa, None, " ".join(pa.split()[1:3]) if pa.startswith("ok ") else "0 0")))
+            if kind == "seq":
+                bind_ops.append(("seqctor " + hx(t), ("seqctor", t, None, pt, None, pt.split(" ", 1)[1] if pt.startswith("ok ") else "-")))
+            if kind == "nav":
+                bind_ops.append(("navbind %s %d %d" % (hx(a), probe[0], probe[1]), (kind, a, t, pa, pt, want)))
+            else:
+                bind_ops.append(("kbind %s %s %s %d %d" % (hx(a), kind, hx(t), probe[0], probe[1]), (kind, a, t, pa, pt, want)))
+        lines3 = [o for o, _ in bind_ops]
+        rc4, out4, log4 = impl.run(lines3)
+        if rc4 != 0 or len(out4) != len(lines3):
+            crashes.append((lines3[len(out4)] if len(out4) < len(lines3) else "<exit>", rc4, log4))
+        for (op, tag), o in zip(bind_ops, out4):
+            if o != tag[5]:
+                bind_fail.append((op, tag, o))
+    lines1 = lines1 + pre[:len(out3)]          # the parse answers used above are compared with the model like all others
+    out1 = out1 + out3
     # model on the same lines
     all_lines = lines1[:len(out1)] + lines2[:len(out2)]
     all_impl = out1 + out2
@@ -608,6 +725,28 @@ def run(c):
         c.report(sig, "%s accepts text %r although it names an unknown %s: %s (%d such texts)" % (opk, t.decode("latin-1"), u, o, len(unk_fail)),
                  {"kind": "unknown", "op": opk, "text_hex": hx(t), "clause": u, "observed": o})
         o_found = True
+    seen = set()
+    for op, (kind, a, t, pa, pt, want), o in sorted(bind_fail, key=lambda x: len(x[0])):
+        if kind in ("ctor", "seqctor"):
+            cls = "KeyEvent" if kind == "ctor" else "KeySequence"
+            sig = "C19:ctor:%s" % cls
+            if sig not in seen:
+                seen.add(sig)
+                c.report(sig, "%s(%r) gives %s although %s::Parse of the same text says %s (the constructor must give %s)" % (cls, a.decode("latin-1"), o, cls, pa, want),
+                         {"kind": "ctor", "op": kind, "text_hex": hx(a), "observed": o, "expected": want})
+                o_found = True
+            continue
+        user = "navigator" if kind == "nav" else "key_binder-" + ("send" if kind == "send" else "send_sequence")
+        clause = "unparsable-text-bound" if (not pa.startswith("ok") or (pt is not None and not pt.startswith("ok"))) else "other-key-than-parsed"
+        sig = "C19:binding:%s:%s" % (user, clause)
+        if sig in seen:
+            continue
+        seen.add(sig)
+        c.report(sig, "a key binding written as accept=%r%s does %s when the key KeyEvent::Parse gives for it is pressed; Parse says accept -> %s%s, so it must do %s (%d such bindings)"
+                 % (a.decode("latin-1"), "" if t is None else " %s=%r" % ("send" if kind == "send" else "send_sequence", t.decode("latin-1")),
+                    o, pa, "" if pt is None else ", target -> %s" % pt, want, len(bind_fail)),
+                 {"kind": "bind", "bind_kind": kind, "accept_hex": hx(a), "target_hex": None if t is None else hx(t), "observed": o, "expected": want})
+        o_found = True
     if sim_fail:
         t, o, ref = sim_fail[0]
         c.report("C19:sim:disagrees-with-KeySequence", "simulate_key_sequence(%r) returns %s but KeySequence::Parse gives %s" % (t.decode("latin-1"), o, ref),
@@ -666,6 +805,8 @@ def run(c):
         "texts_naming_unknown": n_unknown, "texts_all_names_known": n_known,
         "event_roundtrip_failures": len(ev_fail), "seq_roundtrip_failures": len(seq_fail),
         "unknown_accepted": len(unk_fail), "sim_disagreements": len(sim_fail),
+        "binding_cases": len(bind_ops), "binding_failures": len(bind_fail),
+        "binding_cases_with_unparsable_text": sum(1 for _, tg in bind_ops if not tg[3].startswith("ok") or (tg[4] is not None and not tg[4].startswith("ok"))),
         "correspondence_ops": len(all_lines), "correspondence_mismatches": len(mismatches),
         "sanitizer_or_crash_reports": len(crashes),
         "translator": {k: gen[k] for k in ("ok", "problems", "byval_rows", "byname_rows", "modifier_slots", "modifier_named",
@@ -699,6 +840,28 @@ def replay(c, r):
         rc, o, log = impl.run(["%s %s" % (r["op"], r["text_hex"])])
         bad = rc != 0 or o != ["fail"]
         print("replay %s %r -> %s rc=%d : %s" % (r["op"], unhx(r["text_hex"]), o, rc, "ACCEPTED/CRASH" if bad else "rejected, ok"))
+        return 1 if bad else 0
+    if kind == "ctor":
+        pop = "parse " if r["op"] == "ctor" else "seqparse "
+        rc, o, log = impl.run([pop + r["text_hex"], r["op"] + " " + r["text_hex"]])
+        want = None
+        if rc == 0 and len(o) == 2:
+            want = (" ".join(o[0].split()[1:3]) if o[0].startswith("ok ") else "0 0") if r["op"] == "ctor" else (o[0].split(" ", 1)[1] if o[0].startswith("ok ") else "-")
+        bad = want is None or o[1] != want
+        print("replay %s %r -> %s, Parse says %s : %s" % (r["op"], unhx(r["text_hex"]), o[1:] , o[:1], "CONSTRUCTOR DISAGREES" if bad else "ok"))
+        return 1 if bad else 0
+    if kind == "bind":
+        bk, a, t = r["bind_kind"], r["accept_hex"], r.get("target_hex")
+        pre = ["parse " + a] + ([] if bk == "nav" else [("parse " if bk == "send" else "seqparse ") + t])
+        rc, o, log = impl.run(pre)
+        if rc != 0 or len(o) != len(pre):
+            print("replay bind: parsing the texts dies rc=%d" % rc)
+            return 1
+        probe, want = expect_binding(bk, o[0], o[1] if bk != "nav" else None)
+        op = "navbind %s %d %d" % (a, probe[0], probe[1]) if bk == "nav" else "kbind %s %s %s %d %d" % (a, bk, t, probe[0], probe[1])
+        rc, o2, log = impl.run([op])
+        bad = rc != 0 or o2 != [want]
+        print("replay %s : Parse -> %s ; pressing %d:%d -> %s, must be %s : %s" % (op, o, probe[0], probe[1], o2, want, "BINDING WRONG" if bad else "ok"))
         return 1 if bad else 0
     if kind == "sim":
         rc, o, log = impl.run(["seqparse " + r["text_hex"], "sim " + r["text_hex"]])
